@@ -77,25 +77,3 @@ func H_C18_yaml() {
 		vxrt.Assert(vxrt.Eq(string(in.([]byte)), doc), "C18:caller-bytes-untouched")
 	}
 }
-
-// escapeRef is the harness's own statement of the terminator escaping: whole
-// lines equal to --- become /-/-/-/.
-func escapeRef(s string) string {
-	out := ""
-	line := ""
-	for i := 0; i <= len(s); i++ {
-		if i == len(s) || s[i] == '\n' {
-			if line == "---" {
-				line = "/-/-/-/"
-			}
-			out += line
-			if i < len(s) {
-				out += "\n"
-			}
-			line = ""
-			continue
-		}
-		line += s[i : i+1]
-	}
-	return out
-}
